@@ -122,7 +122,18 @@ class Prog:
         rs = self.q.call(fn, **kw); self.steps += 1; self.part.count('comparisons'); self.part.case((fn, what.split(':')[0]))
         rvs = [r['rvname'] for r in rs]; self.log.append((fn, what + (' [%s]' % shape if shape else ''), rvs[0] if len(set(rvs)) == 1 else rvs))
         if any('error' in r and r.get('rv') == -1 for r in rs): self.part.inconc('harness: bad request %s %s' % (fn, [r.get('error') for r in rs])); raise Disagree()
-        if len(set(rvs)) > 1: self.note(fn, what, rvs, {'args': clip(kw), 'shape': shape}); raise Disagree()
+        if len(set(rvs)) > 1:
+            self.note(fn, what, rvs, {'args': clip(kw), 'shape': shape})
+            for i, r in enumerate(rs):     # re-align the four states: an object that exists under some configurations only would make every later search differ
+                for k in ('h', 'hpub', 'hpriv'):
+                    if r.get('rv') == 0 and r.get(k) and fn in ('C_CreateObject', 'C_CopyObject', 'C_GenerateKey', 'C_GenerateKeyPair', 'C_UnwrapKey', 'C_DeriveKey'): self.q.x[i].call('C_DestroyObject', s=kw['s'].hs[i], o=r[k])
+            if fn == 'C_DestroyObject':
+                for o in self.objs:
+                    if o['pos'] is kw.get('o'):
+                        o['alive'] = False
+                        for i, r in enumerate(rs):
+                            if r.get('rv') != 0: self.q.x[i].call('C_DestroyObject', s=kw['s'].hs[i], o=o['pos'].hs[i])
+            raise Disagree()
         if rvs[0] == 'CKR_OK' or rvs[0] == 'CKR_BUFFER_TOO_SMALL':
             for c in cmp:
                 self.part.count('comparisons')
@@ -131,7 +142,7 @@ class Prog:
                     else: labs = value_labels([(r.get('out') or {}).get('data') for r in rs])
                     if len(set(labs)) > 1: self.note(fn, what + (':announced-length' if (rvs[0] != 'CKR_OK' or kw.get('buf', 1) is None) else ':output'), labs, {'args': clip(kw), 'shape': shape}); raise Disagree()
                 elif c == 'n':
-                    labs = ['n=%s' % r.get('n') for r in rs]
+                    labs = len_labels([r.get('n') for r in rs])
                     if len(set(labs)) > 1: self.note(fn, what + ':count', labs, {'args': clip(kw)}); raise Disagree()
         if must_ok and rvs[0] != 'CKR_OK': raise Disagree()
         return rs
@@ -149,18 +160,24 @@ class Prog:
                 e = (r.get('tmpl') or [{}] * len(names))[j]; vals.append(e.get('data') if isinstance(e.get('len'), int) and e.get('len') >= 0 else None)
             labs = value_labels(vals)
             if len(set(labs)) > 1: pair, outc = partition(labs); diffs.setdefault(pair, []).append((a, labs, [clip(v) for v in vals]))
+        if diffs:
+            for o in s.objs:
+                if o['pos'] is pos:
+                    o['diverged'] = True      # not used as an input of later units (its differences would only be re-reported)
+                    if not o['golden'] and producer != 'C_GetAttributeValue' and any(len(l) >= 2 for l in diffs.values()):   # and removed, so that searches stay comparable
+                        s.q.call('C_DestroyObject', s=s.S, o=pos); o['alive'] = False
         for pair, l in diffs.items():
-            if len(l) > 3:
+            if len(l) >= 2:
                 s.ndis += 1; s.part.count('disagreements_found')
-                s.part.violation(f'{producer}|many-attributes|{pair}|differ', f'after {producer} more than three attributes of the object differ between configurations ({pair}): ' + ', '.join(a for a, _, _ in l),
+                s.part.violation(f'{producer}|several-attributes|{pair}|differ', f'after {producer} two or more attributes of the object differ between configurations ({pair}): ' + ', '.join(a for a, _, _ in l),
                                  {'seed': s.seed, 'unit': s.unit, 'attributes': [(a, labs) for a, labs, _ in l], 'history_tail': s.log[-8:]})
             else:
-                for a, labs, vals in l: s.note(producer, f'{a}:{f}' if producer == 'C_GetAttributeValue' else a, labs, {'values': vals})
+                for a, labs, vals in l: s.note('C_GetAttributeValue', a, labs, {'values': vals, 'object': f, 'made-by': producer})
     # ---------------------------------------------------------------- model
     def add(s, rs, kind, key='h'):
         o = {'pos': Pos([r.get(key, 0) for r in rs]), 'kind': kind, 'fam': fam(kind), 'alive': True, 'golden': False}; s.objs.append(o); return o
     def pick(s, fams=None, golden=None):
-        c = [o for o in s.objs if o['alive'] and (fams is None or o['fam'] in fams) and (golden is None or o['golden'] == golden)]
+        c = [o for o in s.objs if o['alive'] and not o.get('diverged') and (fams is None or o['fam'] in fams) and (golden is None or o['golden'] == golden)]
         return s.rnd.choice(c) if c else None
     def gold(s, kind):
         for o in s.objs:
@@ -189,9 +206,9 @@ class Prog(Prog):
         S = s.S; I, O, U, F = {'E': ('C_EncryptInit', 'C_Encrypt', 'C_EncryptUpdate', 'C_EncryptFinal'), 'De': ('C_DecryptInit', 'C_Decrypt', 'C_DecryptUpdate', 'C_DecryptFinal'),
                                'S': ('C_SignInit', 'C_Sign', 'C_SignUpdate', 'C_SignFinal'), 'D': ('C_DigestInit', 'C_Digest', 'C_DigestUpdate', 'C_DigestFinal')}[kind]
         cmp = ('out',) if det else ()
-        if data == '' and kind in ('E', 'De'): what += ':empty-input'
         if kind == 'D': s.step(I, what, s=S, mech=mech, must_ok=True)
-        else: s.step(I, what, s=S, mech=mech, key=key, must_ok=True)
+        else: s.step(I, what.split(':truncated')[0].split(':extended')[0].split(':bitflipped')[0].split(':garbage')[0], s=S, mech=mech, key=key, must_ok=True)
+        if data == '' and kind in ('E', 'De'): what += ':empty-input'
         big = 8192 + len(data) // 2
         if mode == 'query': s.step(O, what, cmp=('out',), shape='size-query', s=S, data=data, buf=None, must_ok=True)
         if mode == 'small':
@@ -298,9 +315,10 @@ class Prog(Prog):
             if m != 'CKM_RSA_X_509' and back[0] != pt: s.note_cross('C_Decrypt', m, i, 'wrong-plaintext', {}); raise Disagree()
         s.produce('De', s.M(m, p), m + ':garbage-ciphertext', priv['pos'], r.choice([s.blob(ml), '00' * ml, s.blob(ml - 1), cts[0][:-2] + '00']), 'oneshot')
     def u_ecdsa(s):
-        r = s.rnd; cv = r.choice(['ec_p256', 'ec_p384', 'ec_p521']); priv = s.gold(cv + ':priv'); pub = s.gold(cv + ':pub'); n = r.choice([20, 28, 32, 48, 64, 1, 0, 100]); s.unit = f'ecdsa {cv} n={n}'; data = s.blob(n)
-        sigs = s.produce('S', s.M('CKM_ECDSA'), 'CKM_ECDSA', priv['pos'], data, s.mode(multi=False), det=False)
-        s.verify_all(s.M('CKM_ECDSA'), 'CKM_ECDSA', pub['pos'], data, [sigs[0], sigs[2]]); s.verify_bad(s.M('CKM_ECDSA'), 'CKM_ECDSA', pub['pos'], data, sigs[0])
+        r = s.rnd; cv = r.choice(['ec_p256', 'ec_p384', 'ec_p521']); priv = s.gold(cv + ':priv'); pub = s.gold(cv + ':pub'); n = r.choice([20, 28, 32, 48, 64, 1, 0, 100]); s.unit = f'ecdsa {cv} n={n}'; data = s.blob(n); osz = {'ec_p256': 32, 'ec_p384': 48, 'ec_p521': 66}[cv]
+        what = 'CKM_ECDSA' + (':empty-input' if n == 0 else ':input-longer-than-order' if n > osz else '')
+        sigs = s.produce('S', s.M('CKM_ECDSA'), what, priv['pos'], data, s.mode(multi=False), det=False)
+        s.verify_all(s.M('CKM_ECDSA'), what, pub['pos'], data, [sigs[0], sigs[2]]); s.verify_bad(s.M('CKM_ECDSA'), what, pub['pos'], data, sigs[0])
         s.step('C_VerifyInit', 'CKM_ECDSA', s=s.S, mech=s.M('CKM_ECDSA'), key=s.gold('ec_p256b:pub' if cv == 'ec_p256' else 'ec_p384b:pub' if cv == 'ec_p384' else 'ec_p521b:pub')['pos'], must_ok=True); s.step('C_Verify', 'CKM_ECDSA:wrong-key', s=s.S, data=data, sig=sigs[0])
     def u_eddsa(s):
         r = s.rnd; priv = s.gold('ed25519:priv'); pub = s.gold('ed25519:pub'); n = r.choice([0, 1, 32, 64, 1000]); s.unit = f'eddsa n={n}'; data = s.blob(n)
@@ -308,9 +326,9 @@ class Prog(Prog):
         s.verify_all(s.M('CKM_EDDSA'), 'CKM_EDDSA', pub['pos'], data, sigs[:1]); s.verify_bad(s.M('CKM_EDDSA'), 'CKM_EDDSA', pub['pos'], data, sigs[0])
     def u_dsa(s):
         r = s.rnd; priv = s.gold('dsa1024:priv'); pub = s.gold('dsa1024:pub'); m = r.choice([x for x in ['CKM_DSA', 'CKM_DSA_SHA1', 'CKM_DSA_SHA224', 'CKM_DSA_SHA256', 'CKM_DSA_SHA384', 'CKM_DSA_SHA512'] if s.has(x)])
-        n = r.choice([20, 20, 1, 19, 21, 32]) if m == 'CKM_DSA' else r.choice([0, 10, 1000]); s.unit = f'dsa {m} n={n}'; data = s.blob(n)
-        sigs = s.produce('S', s.M(m), m, priv['pos'], data, s.mode(multi=m != 'CKM_DSA'), det=False)
-        s.verify_all(s.M(m), m, pub['pos'], data, [sigs[0], sigs[2]]); s.verify_bad(s.M(m), m, pub['pos'], data, sigs[0])
+        n = r.choice([20, 20, 20, 1, 19, 21, 32]) if m == 'CKM_DSA' else r.choice([0, 10, 1000]); s.unit = f'dsa {m} n={n}'; data = s.blob(n); what = m + (':input-not-the-size-of-q' if (m == 'CKM_DSA' and n != 20) else '')
+        sigs = s.produce('S', s.M(m), what, priv['pos'], data, s.mode(multi=m != 'CKM_DSA'), det=False)
+        s.verify_all(s.M(m), what, pub['pos'], data, [sigs[0], sigs[2]]); s.verify_bad(s.M(m), what, pub['pos'], data, sigs[0])
     SECRET_T = [('CKA_CLASS', 'CKO_SECRET_KEY'), ('CKA_TOKEN', False), ('CKA_SENSITIVE', False), ('CKA_EXTRACTABLE', True), ('CKA_ENCRYPT', True), ('CKA_DECRYPT', True), ('CKA_SIGN', True), ('CKA_VERIFY', True)]
     def u_wrap(s):
         r = s.rnd; c = r.randrange(6)
@@ -322,7 +340,8 @@ class Prog(Prog):
         else: wk = uk = s.sym_key(wkind)
         privs = ['rsa1024:priv', 'ec_p256:priv', 'ec_p384:priv', 'dsa1024:priv', 'dh1024:priv', 'ed25519:priv']
         tk = r.choice(['aes128', 'aes256', 'generic32', 'generic64', 'des3'] + (privs if wm in ('CKM_AES_KEY_WRAP_PAD', 'CKM_AES_CBC_PAD', 'CKM_DES3_CBC_PAD') else []))
-        tgt = s.gold(tk); s.unit = f'wrap {wm} wkey={wk["kind"]} target={tk}'; what = wm + (':' + fam(tk) if tk in privs else '')
+        tgt = s.gold(tk); s.unit = f'wrap {wm} wkey={wk["kind"]} target={tk}'; what = wm; isp = tk in privs
+        if isp: det = False      # the PKCS#8 encodings are compared below, under their own key
         md = r.choice(['oneshot', 'query', 'small'])
         if md == 'query': s.step('C_WrapKey', what, cmp=('out',) if det else (), shape='size-query', s=s.S, mech=s.M(wm, p), wkey=wk['pos'], key=tgt['pos'], buf=None, must_ok=True)
         if md == 'small':
@@ -330,10 +349,15 @@ class Prog(Prog):
             if x[0]['rvname'] not in ('CKR_BUFFER_TOO_SMALL', 'CKR_OK'): return
         rs = s.step('C_WrapKey', what, cmp=('out',) if det else (), s=s.S, mech=s.M(wm, p), wkey=wk['pos'], key=tgt['pos'], buf=8192, must_ok=True); blobs = s.outs(rs)
         f = fam(tk)
+        if isp:
+            s.part.count('comparisons'); labs = value_labels(blobs)
+            if len(set(labs)) > 1:
+                seen = []; labs = ['XYZW'[(seen.index(b) if b in seen else (seen.append(b) or len(seen) - 1))] for b in blobs]
+                s.note('C_WrapKey', 'pkcs8-encoding:' + f, labs, {'mechanism': wm, 'lengths': [len(b) // 2 for b in blobs]})
         if f.endswith('-priv'): t = [('CKA_CLASS', 'CKO_PRIVATE_KEY'), ('CKA_KEY_TYPE', {'rsa': 'CKK_RSA', 'ec': 'CKK_EC', 'dsa': 'CKK_DSA', 'dh': 'CKK_DH', 'ed': 'CKK_EC_EDWARDS'}[f[:-5]]), ('CKA_TOKEN', False), ('CKA_SENSITIVE', False), ('CKA_EXTRACTABLE', True), ('CKA_SIGN', True)]
         else: t = s.SECRET_T + [('CKA_KEY_TYPE', {'aes': 'CKK_AES', 'generic': 'CKK_GENERIC_SECRET', 'des3': 'CKK_DES3'}[f])]
         for i in ((0,) if det else (0, 2)):
-            ru = s.step('C_UnwrapKey', what, s=s.S, mech=s.M(wm, p), ukey=uk['pos'], wrapped=blobs[i], tmpl=s.T(t + [('CKA_LABEL', b'unwrapped')]))
+            ru = s.step('C_UnwrapKey', what if not isp else f'pkcs8-decoding:{f}:blob-of-{NAMES[i].split("/")[0]}', s=s.S, mech=s.M(wm, p), ukey=uk['pos'], wrapped=blobs[i], tmpl=s.T(t + [('CKA_LABEL', b'unwrapped')]))
             if ru[0]['rvname'] != 'CKR_OK':
                 if not det: s.note_cross('C_UnwrapKey', what, i, ru[0]['rvname'], {})
                 raise Disagree()
@@ -450,12 +474,13 @@ class Prog(Prog):
         if not o: return
         names = r.sample(attrs_of(o['fam']), min(len(attrs_of(o['fam'])), r.randrange(1, 6))) + r.sample(['CKA_VALUE', 'CKA_PRIVATE_EXPONENT', 'CKA_MODULUS', 'CKA_EC_POINT', 'CKA_CHECK_VALUE', 'CKA_VALUE_LEN', 'CKA_WRAP_TEMPLATE', 'CKA_PUBLIC_KEY_INFO', 'CKA_URL'], r.randrange(0, 3))
         bufs = [r.choice([None, 0, 1, 8, 4096, 4096]) for _ in names]; s.unit = f'getattr {o["kind"]} {names}'
-        rs = s.q.call('C_GetAttributeValue', s=s.S, o=o['pos'], tmpl=[{'t': s.ck[a], 'buf': b} for a, b in zip(names, bufs)])
+        rs = s.q.call('C_GetAttributeValue', s=s.S, o=o['pos'], tmpl=[{'t': s.ck[a], 'buf': b} for a, b in zip(names, bufs)]); s.steps += 1
         for j, a in enumerate(names):
             s.part.count('comparisons'); es = [(rr.get('tmpl') or [{}] * len(names))[j] for rr in rs]
-            labs = ['len=%s' % e.get('len') for e in es]
-            if len(set(labs)) == 1 and all('data' in e for e in es) and rs[0]['rvname'] == 'CKR_OK': labs = value_labels([e.get('data') for e in es])
-            if len(set(labs)) > 1: s.note('C_GetAttributeValue', f'{a}:{o["fam"]}', labs, {'buf': bufs[j]})
+            lens = [e.get('len') for e in es]
+            if bufs[j] == 4096: labs = value_labels([e.get('data') if isinstance(l, int) and l >= 0 else None for e, l in zip(es, lens)])
+            else: labs = value_labels([None if (not isinstance(l, int) or l < 0) else '00' * min(l, 100000) for l in lens])     # announced lengths only
+            if len(set(labs)) > 1: s.note('C_GetAttributeValue', a, labs, {'buf': bufs[j], 'object': o['fam']})
         s.step('C_GetObjectSize', 'object-size', s=s.S, o=o['pos'])
 
 UNITS = [('u_create', 5), ('u_copy', 4), ('u_set', 4), ('u_destroy', 2), ('u_find', 3), ('u_getattr', 3), ('u_digest', 2), ('u_sym', 6), ('u_mac', 3), ('u_rsa_sign', 3), ('u_rsa_pss', 2), ('u_rsa_enc', 2),
